@@ -203,12 +203,13 @@ def execute(case: dict) -> dict:
     async def side(name: str, end: End, d_out: int, sizes: list, rsizes: list) -> None:
         r = res[name]
         try:
+            mine = case.get("compat_" + name, compat)
             if name == "server":
                 s = await TLSStream.wrap(end, server_side=True, ssl_context=sctx,
-                                         standard_compatible=compat)  # fmt: skip
+                                         standard_compatible=mine)  # fmt: skip
             else:
                 s = await TLSStream.wrap(end, hostname="localhost", ssl_context=cctx,
-                                         standard_compatible=compat)  # fmt: skip
+                                         standard_compatible=mine)  # fmt: skip
         except BaseException as e:  # noqa: BLE001
             r["wrap_exc"] = type(e).__name__
             await end.aclose()
@@ -287,7 +288,12 @@ def execute(case: dict) -> dict:
         if name == case["closer"]:
             try:
                 with anyio.fail_after(5):
-                    await s.aclose()
+                    if case.get("close_via") == "unwrap":
+                        # the explicit closing handshake; the transport is ours afterwards
+                        await s.unwrap()
+                        await end.aclose()
+                    else:
+                        await s.aclose()
 
                 r["aclose"] = "ok"
             except BaseException as e:  # noqa: BLE001
@@ -444,6 +450,18 @@ def all_cases(tier: str, seed: int):  # noqa: ANN201
                 for _ in range(12 if tier == "thorough" else 3):
                     d = rng.randrange(2)
                     yield base_case(ver, compat, pol, [d, rng.randrange(0, lens[d] + 1)])
+
+    # closing through an explicit unwrap(): the closing handshake is performed whatever the
+    # closer's own standard_compatible says, so the peer reads a clean end of stream
+    for ver in ("1.2", "1.3"):
+        for closer in ("client", "server"):
+            for mine in (True, False):
+                for peer in (True,):  # (a peer with standard_compatible=False never answers)
+                    other = "server" if closer == "client" else "client"
+                    yield {"cfg": "stock", "ver": ver, "compat": peer, "compat_" + closer: mine,
+                           "compat_" + other: peer, "policy": ["pass", "random"],
+                           "sizes": [[5, 300], [17]], "rsizes": [[64], [7, 100]], "closer": closer,
+                           "cut": None, "seed": 1, "close_via": "unwrap"}  # fmt: skip
 
     # several small records coalesced into ONE transport chunk, read with max_bytes values
     # around the sums of the first two / three records (a receive() that drains more than
